@@ -110,3 +110,201 @@ Theorem marker_write_allowed_iff gs ns : marker_write_allowed gs ns = true <->
 Proof.
   unfold marker_write_allowed. rewrite andb_true_iff, !orb_true_iff, !Z.eqb_eq. tauto.
 Qed.
+
+(* ------------------------------------------- the whole output header, re-read *)
+From LJT Require Import proofs.IccRoundTrip proofs.HeaderProofs.
+
+Lemma jfif_data_bytes j : jfif_ok j -> Forall is_byte (jfif_data j).
+Proof.
+  intros (A & B & C & D & E). unfold jfif_data, emit_2bytes, jfif_sig_emit. cbn [app].
+  repeat constructor; try (unfold is_byte; lia); try (rewrite byte_of_id by assumption; assumption);
+  unfold is_byte, byte_of; apply Z.mod_pos_bound; lia.
+Qed.
+Lemma adobe_data_bytes cs : Forall is_byte (adobe_data cs).
+Proof. destruct cs; repeat constructor; unfold is_byte; cbn; lia. Qed.
+
+(* write_file_header = SOI followed by the library's markers written as ordinary segments *)
+Lemma lib_header_bytes cs j : jfif_ok j ->
+  exists b, write_markers (lib_segs cs j) = Some b /\ emit_file_header cs j = emit_marker M_SOI ++ b /\
+            Forall seg_ok (lib_segs cs j) /\ Forall (fun s => Forall is_byte (snd s)) (lib_segs cs j).
+Proof.
+  intros Hj. pose proof (jfif_data_bytes j Hj) as Bj. pose proof (adobe_data_bytes cs) as Ba.
+  assert (Wj : write_marker (M_APP0, jfif_data j) = Some (emit_jfif_app0 j)).
+  { rewrite write_marker_ok by (change (Zlength (jfif_data j)) with 14; unfold WRITE_MARKER_MAX_DATALEN; lia).
+    rewrite map_byte_of_id by assumption. reflexivity. }
+  assert (Wa : write_marker (M_APP14, adobe_data cs) = Some (emit_adobe_app14 cs)).
+  { rewrite write_marker_ok by (replace (Zlength (adobe_data cs)) with 12 by (destruct cs; reflexivity); unfold WRITE_MARKER_MAX_DATALEN; lia).
+    rewrite map_byte_of_id by assumption. unfold emit_adobe_app14. replace (Zlength (adobe_data cs)) with 12 by (destruct cs; reflexivity). reflexivity. }
+  assert (Oj : seg_ok (M_APP0, jfif_data j)) by (split; [reflexivity | change (Zlength (snd (M_APP0, jfif_data j))) with 14; unfold WRITE_MARKER_MAX_DATALEN; lia]).
+  assert (Oa : seg_ok (M_APP14, adobe_data cs)).
+  { split; [reflexivity|]. cbn [snd]. replace (Zlength (adobe_data cs)) with 12 by (destruct cs; reflexivity). unfold WRITE_MARKER_MAX_DATALEN. lia. }
+  unfold lib_segs, emit_file_header.
+  destruct (writes_jfif cs), (writes_adobe cs); cbn [app write_markers]; rewrite ?Wj, ?Wa; eexists;
+    (split; [reflexivity|]); (split; [rewrite ?app_nil_r; reflexivity|]);
+    (split; [repeat (first [apply Forall_nil | apply Forall_cons; [assumption|]]) | repeat (first [apply Forall_nil | apply Forall_cons; [cbn [snd]; assumption|]])]).
+Qed.
+
+(* (2) every output of tj3Transform: the bytes after SOI are the library's markers followed by the documented extras,
+   written as ordinary segments; re-reading the output under ANY save limits gives exactly those markers, in that order *)
+Theorem tj_output_rereadable c cs j extras rest : jfif_ok j -> (forall k, 0 <= c k) ->
+  Forall seg_ok extras -> stops rest ->
+  exists lb eb, write_markers (lib_segs cs j) = Some lb /\ write_markers extras = Some eb /\
+    emit_file_header cs j ++ eb = emit_marker M_SOI ++ lb ++ eb /\
+    forall fuel h acc, (length (lib_segs cs j ++ extras) < fuel)%nat ->
+      exists h', read_app_markers fuel c h acc ((lb ++ eb) ++ rest)
+                 = Some (h', acc ++ flat_map (saved_under c) (lib_segs cs j ++ extras), rest).
+Proof.
+  intros Hj Hc HF Hs. destruct (lib_header_bytes cs j Hj) as (lb & El & Eh & Ol & _).
+  assert (Fall : Forall seg_ok (lib_segs cs j ++ extras)) by (apply Forall_app; split; assumption).
+  destruct (markers_roundtrip c _ Hc Fall rest Hs) as (bytes & Eb & R).
+  destruct (markers_roundtrip c extras Hc HF rest Hs) as (eb & Ee & _).
+  assert (Ecat : bytes = lb ++ eb).
+  { clear - Eb El Ee. revert bytes lb El Eb. induction (lib_segs cs j) as [|s r IH]; intros bytes lb El Eb.
+    - cbn in El. inversion El; subst. cbn [app] in *. congruence.
+    - cbn [app write_markers] in *. destruct (write_marker s); [|discriminate].
+      destruct (write_markers r) as [br|] eqn:Er; [|discriminate]. inversion El; subst.
+      destruct (write_markers (r ++ extras)) as [bre|] eqn:Ere; [|discriminate]. inversion Eb; subst.
+      rewrite (IH bre br eq_refl eq_refl). rewrite app_assoc. reflexivity. }
+  subst bytes. exists lb, eb. split; [assumption|]. split; [assumption|]. split; [rewrite Eh, <- app_assoc; reflexivity|].
+  exact R.
+Qed.
+
+(* bytes written for an ICC profile: its length plus 18 per APP2 marker (the term tj3TransformBufSize adds) *)
+Lemma number_from_bytes_len num cs : Forall (fun c => 1 <= Zlength c <= MAXD) cs -> forall cur,
+  exists b, write_markers (number_from cur num cs) = Some b /\ Zlength b = Zlength (concat cs) + 18 * Z.of_nat (length cs).
+Proof.
+  induction cs as [|c r IH]; intros HF cur; [exists []; split; reflexivity|].
+  pose proof (Forall_inv HF) as Hc. cbn beta in Hc. destruct (IH (Forall_inv_tail HF) (cur + 1)) as (b & Eb & Lb).
+  cbn [number_from write_markers]. unfold icc_seg at 1.
+  rewrite write_marker_ok.
+  2:{ cbn [snd]. rewrite !Zlength_app'. change (Zlength icc_sig_writer) with 12. change (Zlength [byte_of cur; byte_of num]) with 2.
+      rewrite MAXD_val in Hc. unfold WRITE_MARKER_MAX_DATALEN. lia. }
+  rewrite Eb. eexists. split; [reflexivity|].
+  cbn [concat length]. rewrite !Zlength_app', Zlength_map', !Zlength_app', Lb.
+  change (Zlength (emit_marker W_ICC_MARKER)) with 2. change (Zlength (emit_2bytes _)) with 2.
+  change (Zlength icc_sig_writer) with 12. change (Zlength [byte_of cur; byte_of num]) with 2. lia.
+Qed.
+
+Theorem icc_written_size p : 1 <= Zlength p <= 255 * MAXD ->
+  exists segs b, write_icc p = Some segs /\ write_markers segs = Some b /\
+    Zlength b = Zlength p + TJ_BUFSIZE_ICC_PER_MARKER * icc_num_markers (Zlength p) /\
+    Zlength b = tj_bufsize_icc 0 false 0 0 (Zlength p).
+Proof.
+  intros Hlen. unfold write_icc.
+  replace (Zlength p =? 0) with false by (symmetry; apply Z.eqb_neq; lia).
+  set (num := icc_num_markers (Zlength p)).
+  destruct (num_markers_bound (Zlength p) ltac:(lia)) as [Hb|Hb]; [|lia]. fold num in Hb.
+  assert (Hnum : 1 <= num <= 255) by (rewrite MAXD_val in *; lia).
+  destruct (write_icc_loop_ok (Z.to_nat num) p 1 num) as (cs & E & Hc); [rewrite Z2Nat.id by lia; lia|].
+  destruct (chunked_bounds _ _ Hc) as (B1 & B2 & B3).
+  assert (Hcs : cs <> []) by (intros C; specialize (B3 C); rewrite B3, Zlength_nil in Hlen; lia).
+  assert (Hn : Z.of_nat (length cs) = num) by (symmetry; apply num_markers_char; [lia | apply B2; assumption]).
+  destruct (number_from_bytes_len num cs B1 1) as (b & Eb & Lb).
+  exists (number_from 1 num cs), b. rewrite E. split; [reflexivity|]. split; [assumption|].
+  rewrite (chunked_concat _ _ Hc), Hn in Lb. split; [exact Lb|].
+  rewrite Lb. unfold tj_bufsize_icc. cbn [Z.eqb orb andb negb].
+  replace (Zlength p =? 0) with false by (symmetry; apply Z.eqb_neq; lia). cbn [negb].
+  f_equal. f_equal. unfold num, icc_num_markers, TJ_BUFSIZE_ICC_CHUNK, W_MAX_DATA_BYTES_IN_MARKER.
+  pose proof (Z.div_mod (Zlength p) 65519 ltac:(lia)) as DM. pose proof (Z.mod_pos_bound (Zlength p) 65519 ltac:(lia)) as MB.
+  destruct (Zlength p / 65519 * 65519 =? Zlength p) eqn:E1; [apply Z.eqb_eq in E1 | apply Z.eqb_neq in E1];
+  (destruct (Zlength p mod 65519 =? 0) eqn:E2; [apply Z.eqb_eq in E2 | apply Z.eqb_neq in E2]); lia.
+Qed.
+
+(* (2) the ICC profile of every output: the source's (however it is cut into APP2 chunks, in whatever order, with
+   whatever else in between) when this transform copies APP2, else the instance's, byte-identical *)
+Theorem tj_transform_icc_roundtrip : TJ_TRANSFORM_ICC_UNCONDITIONAL = 0 ->
+  forall sm wj wa segs rest srt n junk, 0 <= sm < 5 ->
+  Forall seg_ok segs -> Forall (fun s => Forall is_byte (snd s)) segs -> stops rest ->
+  Permutation.Permutation (filter marker_is_icc (map saved_of segs)) srt -> well_numbered n srt -> concat (map icc_payload srt) <> [] ->
+  exists bytes, write_markers segs = Some bytes /\
+    forall flags fuel, (length segs < fuel)%nat ->
+    forall q qsegs, 1 <= Zlength q <= 255 * MAXD -> write_icc q = Some qsegs ->
+    exists outs, tj_transform_multi sm flags wj wa fuel (bytes ++ rest) q = Some outs /\ length outs = length flags /\
+      forall i, (i < length flags)%nat ->
+        read_icc_with junk (markers_of (nth i outs [])) =
+        IccOk (if negb (nth i flags false) && copies_app2 sm then concat (map icc_payload srt) else q).
+Proof.
+  intros HU sm wj wa segs rest srt n junk Ho HF HB Hs HP Hwn Hne.
+  destruct (tj_multi_transform HU sm wj wa segs rest [] Ho HF HB Hs) as (bytes & Eb & _).
+  exists bytes. split; [assumption|]. intros flags fuel Hf q qsegs Hq Eq.
+  destruct (tj_multi_transform HU sm wj wa segs rest q Ho HF HB Hs) as (bytes' & Eb' & R). rewrite Eb in Eb'. inversion Eb'; subst bytes'.
+  rewrite (R flags fuel Hf). match goal with |- context [map ?F flags] => set (F' := F) end.
+  eexists. split; [reflexivity|]. split; [apply map_length|].
+  intros i Hi. rewrite (nth_indep (map F' flags) [] (F' false)) by (rewrite map_length; assumption).
+  rewrite map_nth. unfold F'.
+  assert (Einst : instance_part q = qsegs).
+  { unfold instance_part. destruct q as [|q0 q']; [rewrite Zlength_nil in Hq; lia|]. rewrite Eq. reflexivity. }
+  assert (Rq : forall ms, Permutation.Permutation (filter marker_is_icc ms) (markers_of qsegs) -> read_icc_with junk ms = IccOk q).
+  { intros ms Pm. eapply icc_permutation_interleaving; eassumption. }
+  assert (Fq : filter marker_is_icc (markers_of qsegs) = markers_of qsegs).
+  { destruct (icc_roundtrip_all q Hq) as (s' & E' & _ & _ & _ & (Hnum & _) & _). rewrite Eq in E'. inversion E'; subst s'.
+    clear - Hnum. revert Hnum. generalize 1. induction (markers_of qsegs) as [|m r IH]; intros k H; [reflexivity|].
+    cbn [filter]. destruct H as (Hi' & _ & _ & Hr). rewrite Hi'. f_equal. eapply IH. eassumption. }
+  destruct (nth i flags false) eqn:Fl; cbn [negb andb].
+  - rewrite Einst. apply Rq. rewrite Fq. apply Permutation.Permutation_refl.
+  - destruct (copies_app2 sm) eqn:C2.
+    + (* the source's ICC markers are all copied, in order; nothing else in the output is an ICC marker *)
+      assert (Hsrc : source_icc_copied sm segs = true).
+      { unfold source_icc_copied. rewrite C2. cbn [andb].
+        destruct srt as [|m0 srt']; [cbn in Hne; congruence|].
+        assert (Hin : In m0 (filter marker_is_icc (map saved_of segs))) by (eapply Permutation.Permutation_in; [apply Permutation.Permutation_sym; exact HP | left; reflexivity]).
+        apply filter_In in Hin as (Hin & Hicc). apply in_map_iff in Hin as (s & Es & Hs'). apply existsb_exists. exists s. split; [assumption|].
+        rewrite Es. apply is_icc_tj_marker. assumption. }
+      rewrite Hsrc, app_nil_r. apply (read_icc_closed junk _ srt n); try assumption.
+      eapply Permutation.Permutation_trans; [|exact HP]. apply Permutation.Permutation_refl'.
+      unfold markers_of. clear - C2 Ho. induction segs as [|s r IH]; [reflexivity|]. cbn [filter map].
+      destruct (marker_is_icc (saved_of s)) eqn:I.
+      * assert (P : policy sm wj wa (saved_of s) = true).
+        { unfold marker_is_icc in I. apply andb_true_iff in I as (I & _). apply andb_true_iff in I as (I1 & _). apply Z.eqb_eq in I1.
+          unfold copies_app2 in C2. unfold policy.
+          assert (ND : not_dup wj wa (saved_of s) = true) by (apply dup_needs_code; rewrite I1; reflexivity).
+          destruct (sm =? JCOPYOPT_ALL) eqn:E2.
+          - apply Z.eqb_eq in E2. subst sm. cbn. exact ND.
+          - destruct (sm =? JCOPYOPT_ICC) eqn:E4; [|discriminate]. apply Z.eqb_eq in E4. subst sm. cbn [saved_of sm_code] in I1. cbn. rewrite I1. reflexivity. }
+        rewrite P. cbn [map filter]. rewrite I. f_equal. apply IH.
+      * destruct (policy sm wj wa (saved_of s)); cbn [map filter]; rewrite ?I; apply IH.
+    + (* nothing ICC-like is copied: the instance profile *)
+      assert (Hsrc : source_icc_copied sm segs = false) by (unfold source_icc_copied; rewrite C2; reflexivity).
+      rewrite Hsrc, Einst. apply Rq. unfold markers_of. rewrite map_app, filter_app.
+      fold (markers_of qsegs). rewrite Fq.
+      replace (filter marker_is_icc (map saved_of (filter (fun s => policy sm wj wa (saved_of s)) segs))) with (@nil saved); [apply Permutation.Permutation_refl|].
+      symmetry. clear - C2 Ho HF. induction segs as [|s r IH]; [reflexivity|]. pose proof (Forall_inv HF) as (S1 & _).
+      specialize (IH (Forall_inv_tail HF)). cbn [filter]. destruct (policy sm wj wa (saved_of s)) eqn:P; [|assumption].
+      cbn [map filter]. destruct (marker_is_icc (saved_of s)) eqn:I; [|assumption]. exfalso.
+      unfold marker_is_icc in I. apply andb_true_iff in I as (I & _). apply andb_true_iff in I as (I1 & _). apply Z.eqb_eq in I1. cbn [saved_of sm_code] in I1.
+      unfold copies_app2 in C2. apply orb_false_iff in C2 as (H2 & H4). unfold policy in P. rewrite H2, H4 in P. cbn [saved_of sm_code] in P.
+      destruct (sm =? JCOPYOPT_NONE) eqn:E0; [discriminate|].
+      destruct (sm =? JCOPYOPT_COMMENTS) eqn:E1; [rewrite I1 in P; vm_compute in P; discriminate|].
+      destruct (sm =? JCOPYOPT_ALL_EXCEPT_ICC) eqn:E3; [rewrite I1 in P; change (R_ICC_MARKER =? JPEG_APP0 + 2) with true in P; cbn in P; discriminate|].
+      unfold JCOPYOPT_NONE, JCOPYOPT_COMMENTS, JCOPYOPT_ALL, JCOPYOPT_ALL_EXCEPT_ICC, JCOPYOPT_ICC in *. lia.
+Qed.
+
+(* ---- piecemeal marker API ---- *)
+Lemma mapi_bytes gs ns data : forall out n, n = Zlength data ->
+  mapi_run gs ns (mkMapi n out) (map CByte data) = Some (mkMapi 0 (out ++ map byte_of data)).
+Proof.
+  induction data as [|x r IH]; intros out n Hn.
+  - rewrite Zlength_nil in Hn. subst. cbn. rewrite app_nil_r. reflexivity.
+  - rewrite Zlength_cons in Hn. pose proof (Zlength_nonneg' r). cbn [map mapi_run mapi_step ma_open ma_out].
+    replace (0 <? n) with true by (symmetry; apply Z.ltb_lt; lia).
+    rewrite (IH (out ++ [byte_of x]) (n - 1)) by lia. rewrite <- app_assoc. reflexivity.
+Qed.
+
+(* jpeg_write_m_header + datalen x jpeg_write_m_byte, used as documented, writes what jpeg_write_marker writes and
+   leaves no budget open; a byte without an open budget, or a new marker inside one, violates the precondition *)
+Theorem mapi_piecemeal_equiv gs ns m data out : marker_write_allowed gs ns = true -> Zlength data <= WRITE_MARKER_MAX_DATALEN ->
+  mapi_run gs ns (mkMapi 0 out) (CHeader m (Zlength data) :: map CByte data) = mapi_run gs ns (mkMapi 0 out) [CMarker (m, data)] /\
+  mapi_run gs ns (mkMapi 0 out) [CMarker (m, data)] = Some (mkMapi 0 (out ++ emit_marker m ++ emit_2bytes (Zlength data + 2) ++ map byte_of data)).
+Proof.
+  intros Ha Hl. cbn [mapi_run mapi_step ma_open ma_out]. rewrite Z.eqb_refl. cbn [negb]. rewrite Ha.
+  unfold write_marker_header. replace (WRITE_MARKER_MAX_DATALEN <? Zlength data) with false by (symmetry; apply Z.ltb_ge; assumption).
+  rewrite mapi_bytes by reflexivity.
+  destruct (write_marker_state gs ns (m, data)) as (_ & Hok & _). cbn [fst snd] in Hok. rewrite (Hok Ha Hl).
+  rewrite <- !app_assoc. split; reflexivity.
+Qed.
+Theorem mapi_preconditions gs ns out n v s m k : 0 < n ->
+  mapi_step gs ns (mkMapi 0 out) (CByte v) = None /\
+  mapi_step gs ns (mkMapi n out) (CMarker s) = None /\ mapi_step gs ns (mkMapi n out) (CHeader m k) = None.
+Proof.
+  intros Hn. cbn [mapi_step ma_open]. replace (n =? 0) with false by (symmetry; apply Z.eqb_neq; lia). repeat split; reflexivity.
+Qed.
